@@ -846,6 +846,9 @@ def split_inline_box(context, box, position_x, max_x, bottom_space, skip_stack,
                     waiting_floats, line_children, children, waiting_children)
                 if previous_resume_at:
                     resume_at = previous_resume_at
+                    # The line break preserved in the child follows the
+                    # child on the next line
+                    preserved_line_break = False
                     break
 
             position_x = new_position_x
